@@ -25,6 +25,8 @@ RULE = ('Hypothesis generates opacity tables (2..200 rows, strictly increasing w
         'selection). One evaluation = one table with all relations. Non-trivial = >= 3 rows and queries both inside and '
         'outside the table; distinct = distinct canonical JSON.')
 RULE += (' ' + 'Also varied: tables that start or end exactly at 0.55 micron, table wavelengths typed in their unit with a plain decimal factor (not converted by astropy), scalar queries, wavelengths re-assigned on a queried law.')
+RULE += (' ' + 'The table is edited in place after from_table / to_table; the same numbers are asked for in mm / nm right after another unit.')
+RULE += (' ' + 'from_file is called with keyword arguments, with positional arguments in the documented order, or with the documented defaults left out.')
 ASSUMPTIONS = [
     'tolerance 1e-12 relative (unit conversions round to ~1e-16); exactly -0.4 at 0.55 micron within 1e-12',
     'a query on an END node expressed in a different unit than the table may round to either side of the boundary: '
@@ -74,7 +76,10 @@ def cases(draw, max_rows=40):
             # how the table is expressed in its unit: converted by astropy, or typed in that unit (plain decimal factor)
             'table_factor': draw(st.sampled_from(['astropy', 'plain'])),
             'scale': draw(gen.logfloat(1e-6, 1e6)), 'file_cols': ncol, 'file_wav_col': cw, 'file_chi_col': cc,
-            'file_wav_unit': draw(st.sampled_from(['um', 'nm', 'AA'])), 'file_chi_unit': draw(st.sampled_from(['cm2/g', 'm2/kg']))}
+            'file_wav_unit': draw(st.sampled_from(['um', 'nm', 'AA'])), 'file_chi_unit': draw(st.sampled_from(['cm2/g', 'm2/kg'])),
+            # from_file(filename, columns, wav_unit, chi_unit): arguments by keyword, by position, or left out where the
+            # documented default says the same
+            'file_call': draw(st.sampled_from(['keywords', 'positional', 'positional_wav', 'defaults']))}
 
 
 PLAIN = {'um': 1., 'nm': 1e3, 'cm': 1e-4, 'm': 1e-6, 'AA': 1e4}
@@ -231,10 +236,23 @@ def run_case(case, ctx):
                 f.write(' '.join(cols) + '\n')
         with must_succeed('Extinction.from_file'):
             kw = {}
-            if not (case['file_wav_col'] == 0 and case['file_chi_col'] == 1) or case['file_cols'] > 2:
-                kw['columns'] = (case['file_wav_col'], case['file_chi_col'])
-            e = Extinction.from_file(path, wav_unit=unit(case['file_wav_unit']),
-                                     chi_unit=(u.cm ** 2 / u.g) if case['file_chi_unit'] == 'cm2/g' else (u.m ** 2 / u.kg), **kw)
+            columns = (case['file_wav_col'], case['file_chi_col'])
+            wu = unit(case['file_wav_unit'])
+            cu = (u.cm ** 2 / u.g) if case['file_chi_unit'] == 'cm2/g' else (u.m ** 2 / u.kg)
+            call = case.get('file_call', 'keywords')
+            if call == 'positional':
+                e = Extinction.from_file(path, columns, wu, cu)
+            elif call == 'positional_wav':
+                e = Extinction.from_file(path, columns, wu, chi_unit=cu)
+            else:
+                if columns != (0, 1) or case['file_cols'] > 2:
+                    kw['columns'] = columns
+                if not (call == 'defaults' and case['file_wav_unit'] == 'um'):
+                    kw['wav_unit'] = wu
+                if not (call == 'defaults' and case['file_chi_unit'] == 'cm2/g'):
+                    kw['chi_unit'] = cu
+                e = Extinction.from_file(path, **kw)
+            labels.add('from_file_call=' + call)
         # file values were scaled by non-power-of-two factors: compare at 1e-12 but ends may flip
         check_values(query(e, case['query_unit']), want, qs, ends, False,
                      'read from a %d-column text file (columns %d,%d)' % (case['file_cols'], case['file_wav_col'],
